@@ -17,7 +17,9 @@ RULE = ('histories of 1..3 calls drawn from the catalogue of public functions an
         '(any depth): (a) deep structural dump of every argument unchanged unless the call is an explicit in-place '
         'editor, (b) no mutable object reachable from the result is reachable from an argument, (c) random-generator '
         'state and vocabulary fingerprints unchanged; offline history checker: (d) result of call B after call A equals '
-        'B on a pristine deep copy. signature = (object kind/shape, call A, call B[, call C]); non-trivial = the history '
+        'B on a pristine deep copy, and (e) the workload edits every container it is handed back (adds a key/element, '
+        'bumps a count) and requires B on a pristine copy after the history to equal B on a pristine copy before it '
+        '(memo tables or module tables leaking into results). signature = (object kind/shape, call A, call B[, call C]); non-trivial = the history '
         'has at least two calls')
 ASSUMPTIONS = ['in-place editors are exempt by the statement\'s own rule: inplace=True, add_*/pop_*/setters, '
                'clear_empty_mods, strip(inplace=True), module-level add_mods/pop_mods',
@@ -121,6 +123,51 @@ def mutable_ids(x, acc=None, _depth=0, skip_parent=True):
         for v in x:
             mutable_ids(v, acc, _depth + 1)
     return acc
+
+
+def scribble(x, _depth=0, _seen=None):
+    """The caller edits what it was handed back: every mutable container reachable from a result is changed in
+    place (a key/element added, a count bumped). A later call must not see any of it."""
+    if _seen is None:
+        _seen = set()
+    if x is None or isinstance(x, (bool, int, float, str, bytes)) or _depth > 6 or id(x) in _seen:
+        return
+    _seen.add(id(x))
+    t = type(x).__name__
+    if t == 'ProFormaAnnotation':
+        for f in ('isotope_mods', 'static_mods', 'labile_mods', 'unknown_mods', 'nterm_mods', 'cterm_mods',
+                  'internal_mods', 'intervals', 'charge_adducts'):
+            scribble(getattr(x, f), _depth + 1, _seen)
+    elif t == 'MultiProFormaAnnotation':
+        scribble(x.annotations, _depth + 1, _seen)
+        scribble(x.connections, _depth + 1, _seen)
+    elif t == 'Mod':
+        try:
+            x.mult = x.mult + 1
+        except Exception:
+            pass
+    elif t == 'Interval':
+        scribble(x.mods, _depth + 1, _seen)
+    elif isinstance(x, dict):
+        for v in list(x.values()):
+            scribble(v, _depth + 1, _seen)
+        for k, v in list(x.items()):
+            if isinstance(v, (int, float)) and not isinstance(v, bool):
+                x[k] = v + 1
+                break
+        try:
+            x['Zz'] = 7
+        except Exception:
+            pass
+    elif isinstance(x, list):
+        for v in list(x):
+            scribble(v, _depth + 1, _seen)
+        x.append(x[0] if x else 0)
+    elif isinstance(x, set):
+        x.add('Zz')
+    elif isinstance(x, tuple):
+        for v in x:
+            scribble(v, _depth + 1, _seen)
 
 
 EDITOR_PREFIXES = ('add_', 'pop_', 'set_', 'clear_empty_mods')
@@ -375,12 +422,43 @@ def other_objects(pt):
           ('binomial_score-floats', lambda s: P.binomial_score(s[0], s[1], 0.01, 'th'))]),
         ('distributions', lambda: ([(1.0, 0.5), (2.0, 0.5)], [(1.0, 0.25), (3.0, 0.75)]),
          [('merge_isotopic_distributions', lambda d: P.merge_isotopic_distributions(d[0], d[1]))]),
+        # spellings (immutable arguments): what can be shared between these calls is process-wide state only
+        ('formula-string', lambda: 'C6H12O6',
+         [('parse_chem_formula', lambda f: P.parse_chem_formula(f)), ('chem_mass-str', lambda f: P.chem_mass(f)),
+          ('apply_isotope_mods-str', lambda f: P.apply_isotope_mods_to_composition(f, ['13C', 'D'])),
+          ('mass-formula-mod', lambda f: P.mass(f'PEPT[Formula:{f}]IDE')),
+          ('comp-formula-mod', lambda f: P.comp(f'[Formula:{f}]-PEPTIDE')),
+          ('mod_comp-formula', lambda f: P.mod_comp(f'Formula:{f}')),
+          ('mass-formula-labelled', lambda f: P.mass(f'<15N>PEPT[Formula:{f}]IDE/2'))]),
+        ('glycan-string', lambda: 'HexNAc2Hex3',
+         [('parse_glycan_formula', lambda g: P.parse_glycan_formula(g)), ('glycan_comp-str', lambda g: P.glycan_comp(g)),
+          ('glycan_mass-str', lambda g: P.glycan_mass(g)), ('mod_comp-glycan', lambda g: P.mod_comp(f'Glycan:{g}')),
+          ('mod_mass-glycan', lambda g: P.mod_mass(f'Glycan:{g}')),
+          ('comp-glycan-mod', lambda g: P.comp(f'N[Glycan:{g}#g1]K')),
+          ('mass-glycan-labelled', lambda g: P.mass(f'<13C>N[Glycan:{g}]K'))]),
+        ('name-string', lambda: 'Phospho',
+         [('mod_mass-name', lambda n: P.mod_mass(n)), ('mod_comp-name', lambda n: P.mod_comp(n)),
+          ('mod_comp-prefixed', lambda n: P.mod_comp(f'U:{n}')),
+          ('comp-named-mod', lambda n: P.comp(f'PEPS[{n}]K')),
+          ('mass-named-static', lambda n: P.mass(f'<[{n}]@S>PEPSK', monoisotopic=False)),
+          ('parse-serialize', lambda n: P.parse(f'[{n}]?PEPS[{n}]^2K').serialize())]),
+        ('proforma-string', lambda: '<[Carbamidomethyl]@C><13C>[Acetyl]-PEC[Phospho]T(ID)[+15.995]EK/2[+2Na+]',
+         [('parse', lambda t: P.parse(t)), ('mass-str', lambda t: P.mass(t)), ('comp-str', lambda t: P.comp(t)),
+          ('get_mods-str', lambda t: P.get_mods(t)), ('pop_mods-str', lambda t: P.pop_mods(t)),
+          ('fragment-str', lambda t: P.fragment(t, 'by', [1, 2])),
+          ('digest-str', lambda t: list(P.digest(t, 'trypsin', 1, return_type='annotation'))),
+          ('split-str', lambda t: P.split(t)), ('condense-str', lambda t: P.condense_to_mass_mods(t)),
+          ('static-dict', lambda t: P.parse(t).mod_dict())]),
     ]
 
 
-def outcome(fn, obj):
+def outcome(fn, obj, edit=False):
     try:
-        return ('ok', deep(fn(obj)))
+        r = fn(obj)
+        d = deep(r)
+        if edit:
+            scribble(r)   # clause (e): the result is the caller's to edit
+        return ('ok', d)
     except Exception as e:   # the outcome class is part of what must not depend on history
         return ('raise', type(e).__name__)
 
@@ -392,17 +470,25 @@ def run_history(ctx, st, make, calls, kind, shape_id):
     st.history = labels
     full0 = probes.state_fp()
     state0 = _random.getstate()
+    # the last call on a pristine object BEFORE the history (its result is then edited by the caller): process-wide
+    # hidden state (memo tables holding a dictionary that a later call or the caller edits) shows up as a difference
+    first = outcome(calls[-1][1], make(), edit=True)
     shared = make()
     pristine_dump = deep(shared)
     res = None
     for lab, fn in calls:
-        res = outcome(fn, shared)
+        res = outcome(fn, shared, edit=True)
     # (d) the last call on a pristine object
     fresh = outcome(calls[-1][1], make())
     ctx.decided()
     if len(calls) > 1 and res != fresh:
         ctx.violation('result-depends-on-history', {'history': labels, 'kind': kind, 'shape': shape_id,
                                                     'after_history': repr(res)[:300], 'on_fresh_copy': repr(fresh)[:300]})
+    ctx.decided()
+    if first != fresh:
+        ctx.violation('result-depends-on-earlier-calls-or-on-edits-of-earlier-results',
+                      {'history': labels, 'kind': kind, 'shape': shape_id, 'before_history': repr(first)[:300],
+                       'after_history_on_fresh_copy': repr(fresh)[:300]})
     # the shared object after the whole history of non-editor calls
     ctx.decided()
     if deep(shared) != pristine_dump:
